@@ -6,10 +6,13 @@ use std::panic;
 
 mod util;
 mod e_merge;
+mod e_lcov;
 
 fn dispatch(engine: &str, case: &Value) -> Value {
     match engine {
         "merge" => e_merge::run(case),
+        "lcov" => e_lcov::run(case),
+        "lcov_rt" => e_lcov::run_rt(case),
         _ => json!({"error": format!("unknown engine {}", engine)}),
     }
 }
